@@ -208,6 +208,7 @@ REVERTS = [
     ("F15", "fix: a group step that contains an unknown step", ["C15", "C08"]),
     ("F16", "fix: a matrix without dimensions signs", ["C02"]),
     ("F17", "fix: an adjustment that names no dimension", ["C02", "C09"]),
+    ("F19", "fix: a matrix dimension declared without values", ["C02"]),
 ]
 
 
